@@ -52,7 +52,7 @@ func runC07(e *Engine, r *Report, tier string) {
 		"(x/crosschain/keeper.Keeper).isNeedOracleSetRequest|panic after LegacyNewDecFromStr()": "LegacyNewDecFromStr(Sprintf(\"%.8f\", finite float)) cannot fail: PowerDiff returns a finite value in [0,2]",
 		"(x/crosschain/keeper.Keeper).SlashOracle|panic if !found GetOracle()":                  "oracle record absent for an address taken from the oracle list read earlier in the same end-block pass",
 		"(x/gov/keeper.Keeper).Tally|Quo(next(range(alloc:currValidators))#2.DelegatorShares)":                              "verbatim cosmos-sdk x/gov tally: a bonded validator has positive DelegatorShares (x/staking removes a validator whose shares reach zero)",
-		"(x/gov/keeper.Keeper).Tally$2$1|Quo(*F:currValidators[GetValidatorAddr(P:delegation)]#0.DelegatorShares)":         "verbatim cosmos-sdk x/gov tally: same staking invariant as above, the validator was found among the bonded ones",
+		"(x/gov/keeper.Keeper).Tally$2$1|Quo(alloc:currValidators[GetValidatorAddr(P:delegation)]#0.DelegatorShares)":         "verbatim cosmos-sdk x/gov tally: same staking invariant as above, the validator was found among the bonded ones",
 		"(x/gov/keeper.Keeper).Tally|Quo(alloc:totalVotingPower)":                                                           "veto ratio: reached only after `totalVotingPower.Sub(abstain) != 0` (checked by the next ledger entry's guard); abstain is one of the non-negative summands of totalVotingPower, so the total is non-zero",
 	}
 
